@@ -148,6 +148,64 @@ def install_then_request(rep):
               detail={"events": len(evs)})
 
 
+def row_coverage(rep):
+    """every input row is processed: the first one separately, the others in the sequential
+    pass, whose guard must not exclude a non-empty remainder"""
+    S = rep.sources
+    fn = S.function(TIME, "over_time")
+    key = f"{TIME}::over_time::row-coverage"
+    full = "input_data_list"
+    first = [n for n in ast.walk(fn) if isinstance(n, ast.Call)
+             and unparse(n.func) == "process_single_timestep" and n.args
+             and unparse(n.args[0]) == f"{full}[0]"]
+    comps = [n for n in ast.walk(fn) if isinstance(n, ast.ListComp)
+             and "process_single_timestep" in unparse(n.elt)]
+    if not first or len(comps) != 1:
+        raise AnalysisError("over_time: per-step processing calls not found")
+    it = comps[0].generators[0].iter
+    src = it.args[0] if isinstance(it, ast.Call) and unparse(it.func) == "tqdm" else it
+    rest_names = {a.targets[0].id for a in ast.walk(fn) if isinstance(a, ast.Assign)
+                  and isinstance(a.targets[0], ast.Name)
+                  and unparse(a.value) == f"{full}[1:]"}
+    srct = unparse(src)
+    ok_src = srct == f"{full}[1:]" or srct in rest_names
+    rep.check(ok_src, "row-coverage", key + "::remaining-rows",
+              f"the sequential pass iterates `{srct}`, not all rows after the first", node=src)
+    guard = None
+    p = getattr(comps[0], "_parent", None)
+    while p is not None and p is not fn:
+        if isinstance(p, ast.If):
+            guard = p
+            break
+        p = getattr(p, "_parent", None)
+    ok = guard is None
+    why = ""
+    if guard is not None:
+        t = guard.test
+        tt = unparse(t)
+        if isinstance(t, ast.Name) and t.id in rest_names:
+            ok = True
+        elif isinstance(t, ast.Compare) and len(t.ops) == 1 and isinstance(t.left, ast.Call) \
+                and unparse(t.left.func) == "len":
+            arg = unparse(t.left.args[0])
+            c = const_value(t.comparators[0])
+            op = type(t.ops[0]).__name__
+            bound = {"Gt": c, "GtE": c - 1 if c is not None else None,
+                     "NotEq": c}.get(op)
+            if arg == full:
+                ok = bound == 1
+            elif arg in rest_names or arg == f"{full}[1:]":
+                ok = bound == 0
+        why = (f"the guard `{tt}` skips the sequential pass although rows remain (e.g. a table "
+               "with exactly two time steps loses its second row)")
+    rep.check(ok, "row-coverage", key + "::guard", why, node=guard or fn)
+    # and the results are all appended
+    ok = any(isinstance(n, ast.AugAssign) and unparse(n.target) == "data_list"
+             and unparse(n.value) == "results" for n in ast.walk(fn))
+    rep.check(ok, "row-coverage", key + "::collected",
+              "the results of the sequential pass must all be added to the row list", node=fn)
+
+
 def rows(rep):
     S = rep.sources
     fn = S.function(TIME, "over_time")
@@ -343,6 +401,7 @@ def run(rep):
     c03.freeze_before_use(rep)
     c03.freeze_rules(rep)
     install_then_request(rep)
+    row_coverage(rep)
     rows(rep)
     estimator_table(rep)
     estimate_columns(rep)
